@@ -1377,7 +1377,8 @@ static Chunk *insert_vbrace(Chunk *pc, bool after, const ParsingFrame &frm)
       }
    }
 
-   if (ref_is_comment)                                      // Issue #3351
+   if (  ref_is_comment                                     // Issue #3351
+      && ref->GetNext()->IsNot(CT_COMMENT_CPP))             // (a brace behind a '//' comment would become part of it)
    {
       ref = ref->GetNext();
    }
